@@ -181,6 +181,20 @@ class Interp(object):
             ok, m = self.api("Message.new", Message.new, message_type=t, **fields)
             if ok:
                 self.api("Message.write", m.write)
+        elif style == "Message.bind.write":
+            # fields split between new() and one or two bind() calls; bind must not lose or overwrite earlier fields
+            keys = list(fields)
+            a = {k: fields[k] for k in keys[0::2]}
+            b = {k: fields[k] for k in keys[1::2]}
+            ok, m = self.api("Message.new", Message.new, message_type=t, **a)
+            if ok:
+                ok, m2 = self.api("Message.bind", m.bind, **b)
+                if ok:
+                    ok, m3 = self.api("Message.bind", m2.bind)
+                    if ok and (m.contents() != dict(a, message_type=t)):
+                        self.viol("Message.bind modified the message it was called on")
+                    if ok:
+                        self.api("Message.write", m3.write)
         elif style == "MessageType.log":
             mt = MessageType(t, self._typed_fields(decl), "")
             self.api("MessageType.log", mt.log, **fields)
@@ -291,7 +305,13 @@ class Interp(object):
         def guarded_body():
             try:
                 reentered(node.get("reenter") or [])
-                self.api("add_success_fields", action.add_success_fields, **success)
+                if len(success) >= 2 and node["nid"] % 2:
+                    # success fields may be added in several calls
+                    ks = list(success)
+                    self.api("add_success_fields", action.add_success_fields, **{k: success[k] for k in ks[:1]})
+                    self.api("addSuccessFields", action.addSuccessFields, **{k: success[k] for k in ks[1:]})
+                else:
+                    self.api("add_success_fields", action.add_success_fields, **success)
             except BaseException as e:
                 body_exc[0] = e
                 raise
